@@ -1276,6 +1276,12 @@ orc_compiler_dup_temporary (OrcCompiler *compiler, int var, int j)
 {
   int i = ORC_VAR_T1 + compiler->n_temp_vars + compiler->n_dup_vars;
 
+  if (i >= ORC_N_COMPILER_VARIABLES) {
+    orc_compiler_error (compiler, "too many temporary variables");
+    compiler->result = ORC_COMPILE_RESULT_UNKNOWN_COMPILE;
+    return 0;
+  }
+
   compiler->vars[i].vartype = ORC_VAR_TYPE_TEMP;
   compiler->vars[i].size = compiler->vars[var].size;
   compiler->vars[i].name = orc_malloc (strlen(compiler->vars[var].name) + 10);
@@ -1289,6 +1295,12 @@ static int
 orc_compiler_new_temporary (OrcCompiler *compiler, int size)
 {
   int i = ORC_VAR_T1 + compiler->n_temp_vars + compiler->n_dup_vars;
+
+  if (i >= ORC_N_COMPILER_VARIABLES) {
+    orc_compiler_error (compiler, "too many temporary variables");
+    compiler->result = ORC_COMPILE_RESULT_UNKNOWN_COMPILE;
+    return 0;
+  }
 
   compiler->vars[i].vartype = ORC_VAR_TYPE_TEMP;
   compiler->vars[i].size = size;
